@@ -1022,7 +1022,17 @@ impl SignedDuration {
         self,
         rhs: SignedDuration,
     ) -> Option<SignedDuration> {
-        let Some(rhs) = rhs.checked_neg() else { return None };
+        let Some(rhs) = rhs.checked_neg() else {
+            // `rhs` has `i64::MIN` seconds, so its negation is not
+            // representable. But the difference might be (when `self` is
+            // negative). So compute `(self - (rhs + 1s)) + 1s` instead.
+            // Neither the addition of one second to `rhs` nor its negation
+            // can fail.
+            let rhs = SignedDuration::new_unchecked(rhs.secs + 1, rhs.nanos);
+            let Some(rhs) = rhs.checked_neg() else { return None };
+            let Some(diff) = self.checked_add(rhs) else { return None };
+            return diff.checked_add(SignedDuration::new_unchecked(1, 0));
+        };
         self.checked_add(rhs)
     }
 
